@@ -944,6 +944,8 @@ struct Net {
     sync_client: [repe::Client; 2],
     async_client: [repe::AsyncClient; 2],
     /// clients connected to the capture peer, and the frames it recorded
+    /// WebSocket server (same router) and its client: only the serde helper exists there
+    ws_client: repe::websocket_client::WebSocketClient,
     cap_sync: repe::Client,
     cap_async: repe::AsyncClient,
     captured: Mutex<std::sync::mpsc::Receiver<Vec<u8>>>,
@@ -1044,10 +1046,20 @@ fn start_net() -> Net {
     });
     let sync_client = [repe::Client::connect(&a0).unwrap(), repe::Client::connect(&a1).unwrap()];
     let async_client = rt.block_on(async { [repe::AsyncClient::connect(&a0).await.unwrap(), repe::AsyncClient::connect(&a1).await.unwrap()] });
+    let ws_url = rt.block_on(async {
+        let l = tokio::net::TcpListener::bind("127.0.0.1:0").await.unwrap();
+        let a = l.local_addr().unwrap();
+        let r = make_router();
+        tokio::spawn(async move {
+            let _ = repe::websocket_server::WebSocketServer::new(r).serve_listener(l, "/repe").await;
+        });
+        format!("ws://{}/repe", a)
+    });
+    let ws_client = rt.block_on(async { repe::websocket_client::WebSocketClient::connect(&ws_url).await.unwrap() });
     let (ca, rx) = start_capture();
     let cap_sync = repe::Client::connect(&ca).unwrap();
     let cap_async = rt.block_on(async { repe::AsyncClient::connect(&ca).await.unwrap() });
-    Net { rt, addr: [a0, a1], sync_client, async_client, cap_sync, cap_async, captured: Mutex::new(rx) }
+    Net { rt, addr: [a0, a1], sync_client, async_client, ws_client, cap_sync, cap_async, captured: Mutex::new(rx) }
 }
 
 #[allow(clippy::too_many_arguments)]
@@ -1063,6 +1075,8 @@ fn op_net<T: Elem>(c: &mut Ctx, server: usize, client: &str, kind: &str, route: 
         ("async", "bulk") => net.rt.block_on(net.async_client[server].call_typed_slice_with_timeout(&path, &xs, t)),
         ("async", "aligned") => net.rt.block_on(net.async_client[server].call_typed_slice_aligned_with_timeout(&path, &xs, t)),
         ("async", "serde") => net.rt.block_on(net.async_client[server].call_typed_beve_with_timeout(&path, &xs, t)),
+        // server index 2: the WebSocket server, reached by the WebSocket client's serde helper
+        ("ws", "serde") => net.rt.block_on(net.ws_client.call_typed_beve_with_timeout(&path, &xs, t)),
         _ => panic!("unknown client kind"),
     };
     let _ = &net.addr;
@@ -1213,7 +1227,10 @@ fn op_cap<T: Elem>(c: &mut Ctx, client: &str, kind: &str, cls: u8, code: u8, ple
 fn exec(out: &mut Out, line: &str, net: Option<&Net>) {
     let w = words(line);
     let idx = w.get(1).copied().unwrap_or("?");
-    out.begin(line);
+    // panics are caught per op; only the socket ops (which can hang the process) leave a marker file
+    if matches!(w[0], "net" | "cap") {
+        out.begin(line);
+    }
     let mut c = Ctx { out: &mut *out, line, idx, net };
     let u = |s: &str| -> usize { s.parse().expect("number in op line") };
     let ty = |a: &str, b: &str| -> (u8, u8) { (a.parse().unwrap(), b.parse().unwrap()) };
@@ -1804,6 +1821,15 @@ fn generate(seed: u64, thorough: bool) -> Vec<String> {
         let p = gen_payload(&mut g.r, cls, code, w, n, 1);
         let plen = *g.r.pick(&PLENS[1..]);
         push!(g, "net", "{} {} {} {} {} {} {} {} {}", server, client, kind, route, cls, code, plen, n, hex(&p));
+    }
+    // the WebSocket client's serde helper against the three routes on the WebSocket server
+    for route in ["slice", "ref", "typed"] {
+        for round in 0..(if thorough { 20 } else { 4 }) {
+            let (cls, code, w) = *g.r.pick(&TYPES);
+            let n = if round == 0 { 0 } else { g.r.range(1, 300) as usize };
+            let p = gen_payload(&mut g.r, cls, code, w, n, 1);
+            push!(g, "net", "2 ws serde {} {} {} {} {} {}", route, cls, code, *g.r.pick(&PLENS[1..]), n, hex(&p));
+        }
     }
     // the shortest path and a body spanning many TCP segments, borrowing route
     for server in 0..2 {
